@@ -9,7 +9,8 @@ one() {
   d=$1; id=$(basename "$d"); prop=${id%-*}
   out=$(/verif/tools/try_seed_iso.sh "$d/patch.diff" "$prop" 2>&1)
   if echo "$out" | grep -q "patch does not apply"; then echo "$id does-not-apply"
-  elif echo "$out" | grep -q "exit=1"; then echo "$id detected"
+  elif echo "$out" | grep -q "^VIOLATION property=$prop "; then echo "$id detected"
+  elif echo "$out" | grep -q "exit=1"; then echo "$id CHECK-BROKE: $(echo "$out" | tail -3 | head -1 | cut -c1-120)"
   else echo "$id MISSED: $(echo "$out" | tail -2 | head -1 | cut -c1-120)"; fi
 }
 export -f one
